@@ -187,6 +187,8 @@ def check_add(run, f, cfg):
            "by its member (G[x] == x), everything else is kept as it is%s" % (cells, "" if not bad else " - EXCEPT " + ", ".join(bad[:6])),
            sp=f.fns[name]["sp"], cfg=cfg, detail=bad[:20] or None)
     run.floor("C06.R1", "add-cells", cells, 272, cfg)
+    from .. import scope
+    scope.check_bound(run, "C06.R1", "add:scope", f, [name], 3, cfg, "Condition::add (groups of 0..3 members)")
 
 
 def mentions_local(e, name):
@@ -374,6 +376,8 @@ def check_add_condition(run, f, cfg):
            "add_condition tabulated on %d cells (stored shape x added shape, every Kleene assignment of the members): the stored condition always "
            "denotes (stored AND added)%s" % (cells, "" if not bad else " - EXCEPT " + "; ".join(bad[:6])), sp=f.fns[name]["sp"], cfg=cfg, detail=bad[:20] or None)
     run.floor("C06.R2", "add_condition-cells", cells, 272, cfg)
+    from .. import scope
+    scope.check_bound(run, "C06.R2", "add_condition:scope", f, [name], 3, cfg, "add_condition (groups of 0..3 members)")
 
 
 def eval_conds_take(f, conds, env):
